@@ -117,6 +117,47 @@ def weird_programs():
     return out
 
 
+def nested_programs():
+    """every kind of statement / definition placed inside every kind of body (method, method called twice, own constructor,
+    the predefined 异常's redefined constructor, getter, type method, handler block, branch, loops) and the body executed"""
+    inner = {
+        "define-type": "定义内类：\n    其a = 1\n",
+        "define-type-with-method": "定义内类：\n    其a = 1\n\n    如何用？\n        输出其a\n",
+        "define-method": "如何内法？\n    输出1\n",
+        "define-method-with-input": "如何内法？\n    输入子\n    输出子\n",
+        "define-constructor-of-outer-type": "如何新建外类？\n    其甲 = 2\n",
+        "define-constructor-of-exception": "如何新建异常？\n    输入文\n    其内容 = 文\n",
+        "define-getter-like": "何为内值？\n    输出1\n",
+        "import": "导入《@JSON》\n",
+        "input-line": "输入丑\n",
+        "declare-and-use-type": "定义内类：\n    其a = 1\n令物 = （新建内类）\n（显示：物之a）\n",
+        "throw-custom": "定义内错：\n    其内容 = “c”\n抛出内错：“m”！\n",
+        "handler": "拦截异常：\n    输出1\n",
+        "return-type": "定义内类：\n    其a = 1\n输出内类\n",
+        "return-method": "如何内法？\n    输出1\n输出内法\n",
+    }
+    def ind(txt, n): return "".join("    " * n + l + "\n" if l else "\n" for l in txt.rstrip("\n").split("\n"))
+    bodies = {
+        "method": lambda x: "如何外？\n" + ind(x, 1) + "    输出1\n（显示：（外））\n",
+        "method-twice": lambda x: "如何外？\n" + ind(x, 1) + "    输出1\n（显示：（外））\n（显示：（外））\n",
+        "own-constructor": lambda x: "定义外类：\n    其甲 = 1\n如何新建外类？\n" + ind(x, 1) + "    其甲 = 3\n令物 = （新建外类）\n令物二 = （新建外类）\n（显示：物之甲）\n",
+        "exception-constructor": lambda x: "如何新建异常？\n    输入文\n" + ind(x, 1) + "    其内容 = 文\n令错 = （新建异常：“x”）\n令错二 = （新建异常：“y”）\n（显示：错之内容）\n",
+        "exception-constructor-thrown": lambda x: "如何新建异常？\n    输入文\n" + ind(x, 1) + "    其内容 = 文\n如何试？\n    抛出异常：“x”！\n    拦截异常：\n        输出1\n（显示：（试））\n（显示：（试））\n",
+        "getter": lambda x: "定义外类：\n    其甲 = 1\n\n    何为乙？\n" + ind(x, 2) + "        输出2\n令物 = （新建外类）\n（显示：物之乙、物之乙）\n",
+        "type-method": lambda x: "定义外类：\n    其甲 = 1\n\n    如何做？\n" + ind(x, 2) + "        输出2\n令物 = （新建外类）\n（显示：以物（做））\n（显示：以物（做））\n",
+        "handler-block": lambda x: "如何外？\n    抛出异常：“x”！\n    拦截异常：\n" + ind(x, 2) + "        输出1\n（显示：（外））\n（显示：（外））\n",
+        "branch": lambda x: "如果真：\n" + ind(x, 1) + "    （显示：1）\n",
+        "while": lambda x: "令数 = 0\n每当数 < 2：\n    数 = 数 + 1\n" + ind(x, 1),
+        "iterate": lambda x: "遍历【1，2】：\n" + ind(x, 1) + "    （显示：1）\n",
+        "top-level": lambda x: x,
+    }
+    out = []
+    for bn, mk in bodies.items():
+        for iname, itxt in inner.items():
+            out.append(("%s/%s" % (bn, iname), "导入《@JSON》\n" + mk(itxt) + "输出1\n"))
+    return out
+
+
 def run(ctx):
     znh = common.build_harness(ctx)
     rnd = random.Random(ctx.seed)
@@ -172,6 +213,8 @@ def run(ctx):
                 cases.append(dict(id=len(cases), recv=k, acc="form", name="", args=[a], src=f)); meta.append(("form", f))
     for tag, src in weird_programs():
         cases.append(dict(id=len(cases), recv="null", acc="form", name="", args=["n0"], src=src.replace("导入《@JSON》\n", "导入《@JSON》\n输入甲、乙1\n", 1))); meta.append(("shape", tag))
+    for tag, src in nested_programs():
+        cases.append(dict(id=len(cases), recv="null", acc="form", name="", args=["n0"], src=src.replace("导入《@JSON》\n", "导入《@JSON》\n输入甲、乙1\n", 1))); meta.append(("nested", tag))
     for t in VARINPUTS + VARINPUTS2:
         cases.append(dict(id=len(cases), recv="null", acc="var", name="", args=[], var=t)); meta.append(("varinput", t))
     res = common.run_harness(ctx, znh, "inv", cases, timeout=3000, args=["-t", "10"])
@@ -183,13 +226,15 @@ def run(ctx):
         kind, v = meta[r["id"]]
         c = cases[r["id"]]
         counts[r["obs"]] = counts.get(r["obs"], 0) + 1
-        where = ("program " + v) if kind == "shape" else ("%s %s.%s(%s)" % (c["acc"], c["recv"], c["name"], ",".join(c["args"]))) if kind.startswith("inv") else (c.get("var") or c.get("src", "").splitlines()[-1] + " on " + c["recv"] + "," + ",".join(c["args"]))
+        where = ("program " + v) if kind in ("shape", "nested") else ("%s %s.%s(%s)" % (c["acc"], c["recv"], c["name"], ",".join(c["args"]))) if kind.startswith("inv") else (c.get("var") or c.get("src", "").splitlines()[-1] + " on " + c["recv"] + "," + ",".join(c["args"]))
         if r["obs"] in ("panic", "exit", "timeout", "nil-value", "harness-error"):
             site = ""
             m = re.search(r"pkg/[\w/]+\.go:\d+|stdlib/[\w/]+\.go:\d+", (r.get("stack") or "") + (r.get("detail") or ""))
             if m: site = m.group(0)
-            sig = "%s:%s:%s" % (r["obs"], (c["recv"] + "." + c["name"]) if kind.startswith("inv") else (kind if kind != "shape" else "shape:" + v), site)
+            sig = "%s:%s:%s" % (r["obs"], (c["recv"] + "." + c["name"]) if kind.startswith("inv") else (kind if kind not in ("shape", "nested") else kind + ":" + v), site)
             common.report(ctx, sig, "%s -> %s %s" % (where, r["obs"], (r.get("detail") or r.get("msg") or "")[:300]), dict(case=c, result=r))
+        elif r["obs"] == "syntax-error" and kind == "nested":
+            pass        # a definition where the grammar allows none is a syntax error: a Zn error, which is what the property asks for
         elif r["obs"] == "syntax-error":
             common.report(ctx, "harness:syntax", "generated program does not parse: %s" % r.get("src"), dict(case=c, result=r))
         elif kind == "inv" and v["out"] == "error" and r["obs"] == "value":
@@ -201,8 +246,8 @@ def run(ctx):
                     "function) = 281k invocations with the outcome the validators' patterns demand (quick: all of arity <= 1 + a seeded 45000); plus random tuples of arity 3-4 "
                     "for every method/function/constructor, 38 operator/index/assignment/iteration/construction/throw/format forms x 11 receiver kinds x pool values, and %d "
                     "input-variable texts; %d programs that build a value of unusual shape (a collection that contains itself, directly or through another collection or an object; the result of a body that "
-                    "produces nothing; a type or method as a value) and consume it in every way (display, return, format, JSON, copy, compare, search, iterate, throw, join, merge). Every case runs in a worker process: the outcome class must be value or Zn error - never panic, nil result, exit or hang. The member "
-                    "tables extracted from the Go sources must equal the spec's tables" % (len(VARINPUTS) + len(VARINPUTS2), len(weird_programs())),
+                    "produces nothing; a type or method as a value) and consume it in every way (display, return, format, JSON, copy, compare, search, iterate, throw, join, merge). %d programs that place every kind of definition / section (type, method, constructor, getter, import, 输入, handler, a custom throw) inside every kind of body (method, method called twice, own constructor, the redefined constructor of 异常 - constructed and thrown -, getter, type method, handler block, branch, loops) and run it. Every case runs in a worker process: the outcome class must be value or Zn error - never panic, nil result, exit or hang. The member "
+                    "tables extracted from the Go sources must equal the spec's tables" % (len(VARINPUTS) + len(VARINPUTS2), len(weird_programs()), len(nested_programs())),
                outcome_counts=counts, illtyped_calls_returning_a_value=illtyped_accepted, unmodelled_members=unmodelled, stale_members=stale)
     if unmodelled or stale:
         # not a verdict by itself: recorded, so that the new member gets its row in the spec's tables (until then only the
